@@ -975,6 +975,20 @@ func runCase(spec *caseSpec) {
 		if len(rootIDs) == 0 {
 			fail("depth-no-root", "no root returned")
 		}
+		// every followed direct predecessor of the given node lies under a root (C03_direct_predecessors_covered)
+		for _, p := range filteredPreds(g, spec.Start, fs) {
+			up := ancestors(g, p, fs)
+			covered := false
+			for _, r := range rootIDs {
+				if _, ok := up[r]; ok {
+					covered = true
+				}
+			}
+			if !covered {
+				fail("depth-direct-pred-uncovered", fmt.Sprintf("direct predecessor %d of the given node %d is under none of the roots %v (Depth %d)", p, spec.Start, rootIDs, spec.Limit))
+				break
+			}
+		}
 		for _, r := range rootIDs {
 			if !within[r] {
 				fail("depth-root-too-far", fmt.Sprintf("root %d is not an ancestor within %d steps (%v)", r, spec.Limit, ancWithin))
@@ -989,7 +1003,7 @@ func runCase(spec *caseSpec) {
 
 	// ---- findRoots with the k-th source operation failing (hook), against the model's find_roots_e:
 	// the error must surface at exactly that operation, a success must be the fault-free root set
-	if spec.Fault > 0 && err == nil && lister != "c" {
+	if spec.Fault > 0 && err == nil {
 		kk := 1 + spec.Fault%(counter.ops+2) // counter.ops+1 and beyond: never reached
 		fsrc := &faultSrc{ReadOnlyGraphStorage: hookSrc, countdown: kk}
 		var src content.ReadOnlyGraphStorage = fsrc
@@ -1110,6 +1124,12 @@ func runCase(spec *caseSpec) {
 
 	// ---- ExtendedCopyGraph
 	lower := g.Reach(spec.Start)
+	for _, p := range filteredPreds(g, spec.Start, fs) {
+		// (any Depth >= 1) the graphs of the followed direct predecessors arrive too
+		for k := range g.Reach(p) {
+			lower[k] = true
+		}
+	}
 	upper := unionReach(g, ancWithin)
 	// initial: what the destination held before the copy (link-closed subset)
 	initial := map[int]bool{}
@@ -1627,6 +1647,7 @@ func main() {
 		}
 	}
 	smallScope(r)
+	smallScopeFilters()
 	coverageFloors()
 	for _, res := range []bool{true, false} {
 		for _, rok := range []bool{true, false} {
@@ -1664,6 +1685,7 @@ func coverageFloors() {
 	}
 	need("graph=fan", 100)
 	need("small-scope", 2000)
+	need("small-scope-filters", 500)
 	need("referrers-by-type", 100)
 	need("fault=hit", 50)
 	need("findRoots-fault=error", 50)
@@ -1711,6 +1733,13 @@ func replay(path string) {
 			var a []any
 			if json.Unmarshal(w, &a) == nil && len(a) == 6 {
 				wrapperCase(a[0].(bool), a[1].(bool), a[2].(bool), a[3].(bool), a[4].(string), a[5].(string))
+			}
+			continue
+		}
+		if sg, ok := probe["smallfilter"]; ok {
+			var sc smallFCase
+			if json.Unmarshal(sg, &sc) == nil {
+				runSmallF(&sc)
 			}
 			continue
 		}
